@@ -24,7 +24,11 @@ where
         let mut n = 0;
 
         loop {
-            let src = self.inner.fill_buf()?;
+            let src = match self.inner.fill_buf() {
+                Ok(src) => src,
+                Err(ref e) if e.kind() == io::ErrorKind::Interrupted => continue,
+                Err(e) => return Err(e),
+            };
 
             if src.is_empty() {
                 return Ok(n);
